@@ -312,6 +312,9 @@ func (h *Host) Start(forget bool) error {
 // Forget drops all prepared statements of the host (without touching connections).
 func (h *Host) Forget() { h.mu.Lock(); h.prepared = map[string]string{}; h.mu.Unlock() }
 
+// Learn makes the host know a prepared id without a PREPARE having reached it.
+func (h *Host) Learn(idHex, query string) { h.mu.Lock(); h.prepared[idHex] = query; h.mu.Unlock() }
+
 func (h *Host) Knows(idHex string) bool { h.mu.Lock(); defer h.mu.Unlock(); _, ok := h.prepared[idHex]; return ok }
 
 func (h *Host) Conns() []*Conn {
